@@ -27,7 +27,15 @@ The dataflow is demand driven and follows values through
 Interprocedural summaries (parameters, returns, attributes) are solved as a least fixed point, so recursion (read_lines calling
 itself with a path it resolved) needs no special case.
 
-Three more analyses share the same machinery:
+Path values may be strings handled with os.path or pathlib objects (`Path(x)`, `d / name`, `.joinpath`, `.parent`, `.resolve()`,
+`.exists()` / `.read_bytes()` / `.open()` as sinks); `filter(os.path.exists, xs)` / `map(os.path.abspath, xs)` apply the function to
+every element.  Calls through a local alias of a function or a function-valued parameter are resolved; a function whose name
+escapes (stored in a table, returned) may be called from anywhere.
+
+More analyses share the same machinery:
+  * `cwd_guard`   - is a use of the working directory (os.getcwd(), Path.cwd(), abspath('.')) executed only when
+                    os.path.exists(<the caller's input>) is false?  Decided by a truth table over the enclosing conditions,
+                    conditional expressions, short-circuit operands and preceding guard clauses (`if t: return ...`);
   * `is_abs`      - the expression is definitely an absolute path / a list of absolute paths (os.path.abspath, join(abs, ...),
                     dirname(abs)), used for the CLI rule;
   * `aliases`     - local names that may denote the *same object* as a parameter (plain copies of the reference, `p or []`,
@@ -168,7 +176,7 @@ class Prov:
             if not callees or (dotted(call.func) in self.facts.classes):
                 return True
             for c in callees:
-                for p, args in self.bind_call(c, call).items():
+                for p, args in self.bind_call(c, call, q).items():
                     if any(a is ref for a in args) and not self._only_called(self.cg.funcs[c], p):
                         return True
             return False
@@ -201,8 +209,15 @@ class Prov:
             self._value_refs = refs
         return self._value_refs
 
-    def reach(self, entry):
-        """Functions reachable from `entry`: call edges, nested closures, and functions referenced as values."""
+    def reach(self, entry, dynamic=True):
+        """Functions reachable from `entry`: call edges, nested closures, and functions referenced as values; with `dynamic`, a
+        method call on an object of unknown class may reach every repo method of that name (over-approximation)."""
+        memo = self.__dict__.setdefault('_reach_memo', {})
+        if (entry, dynamic) not in memo:
+            memo[(entry, dynamic)] = self._reach(entry, dynamic)
+        return memo[(entry, dynamic)]
+
+    def _reach(self, entry, dynamic):
         seen = set()
         todo = [entry]
         while todo:
@@ -215,9 +230,11 @@ class Prov:
             for n in walk_fn(fn):
                 if isinstance(n, ast.Call):
                     todo.extend(self.callees(q, n))
-                    if isinstance(n.func, ast.Attribute) and not (dotted(n.func) or '').startswith(('os.', 're.', 'struct.', 'copy.', 'sys.', 'log.', 'logging.')):
+                    if dynamic and isinstance(n.func, ast.Attribute) and not (dotted(n.func) or '').startswith(('os.', 're.', 'struct.', 'copy.', 'sys.', 'log.', 'logging.')):
                         # dynamic dispatch: any repo method of that name may be the target
                         todo.extend(self.cg.methods_by_name.get(n.func.attr, []))
+                if isinstance(n, ast.Attribute) and isinstance(n.ctx, ast.Load) and isinstance(n.value, ast.Name) and n.value.id in self.facts.classes:
+                    todo.extend(self.cg.methods_by_name.get(n.attr, []))        # Cls.method used as a value
                 if isinstance(n, ast.Name) and isinstance(n.ctx, ast.Load):
                     if n.id in locals_:
                         todo.append(locals_[n.id])
@@ -417,8 +434,42 @@ class Prov:
         return out
 
     # -- call binding -----------------------------------------------------------------------------------------------------
-    def bind_call(self, callee, call):
-        """{parameter name: [argument nodes]} for a call of the repo function `callee` (bound calls skip self)."""
+    def dict_entries(self, node, qual, depth=0):
+        """{constant key: value node} of a dict-valued expression that the dataflow can open up (a literal, dict(k=v), a local
+        bound to one and not modified afterwards), or None."""
+        if isinstance(node, ast.Dict):
+            out = {}
+            for k, v in zip(node.keys, node.values):
+                if k is None:
+                    inner = self.dict_entries(v, qual, depth + 1)
+                    if inner is None:
+                        return None
+                    out.update(inner)
+                elif isinstance(k, ast.Constant) and isinstance(k.value, str):
+                    out[k.value] = v
+                else:
+                    return None
+            return out
+        if isinstance(node, ast.Call) and dotted(node.func) == 'dict' and not node.args and all(k.arg is not None for k in node.keywords):
+            return {k.arg: k.value for k in node.keywords}
+        if isinstance(node, ast.Name) and qual is not None and depth < 4:
+            defs = self.reaching(qual, node)
+            if len(defs) == 1 and defs[0][0][0] == 'expr':
+                fn = self.fn_of(qual)
+                for n in walk_fn(fn):
+                    # the dict must not be changed between its definition and the call
+                    if isinstance(n, ast.Subscript) and isinstance(n.ctx, (ast.Store, ast.Del)) and isinstance(n.value, ast.Name) and n.value.id == node.id:
+                        return None
+                    if isinstance(n, ast.Call) and isinstance(n.func, ast.Attribute) and isinstance(n.func.value, ast.Name) and n.func.value.id == node.id \
+                            and n.func.attr in ('update', 'pop', 'setdefault', 'clear', 'popitem'):
+                        return None
+                return self.dict_entries(defs[0][1], qual, depth + 1)
+        return None
+
+    def bind_call(self, callee, call, caller=None):
+        """{parameter name: [argument nodes]} for a call of the repo function `callee` (bound calls skip self).  `**options` is
+        opened up when the dataflow can see the dict (in function `caller`); otherwise every parameter may receive it and the key
+        '**' is set."""
         fn = self.fn_of(callee)
         a = fn.args
         pos = [x.arg for x in getattr(a, 'posonlyargs', []) + a.args]
@@ -442,8 +493,17 @@ class Prov:
         names = set(pos) | {x.arg for x in a.kwonlyargs}
         for kw in call.keywords:
             if kw.arg is None:
-                for p in names:
-                    out.setdefault(p, []).append(kw.value)
+                entries = self.dict_entries(kw.value, caller)
+                if entries is None:
+                    out.setdefault('**', []).append(kw.value)
+                    for p in names:
+                        out.setdefault(p, []).append(kw.value)
+                else:
+                    for k, v in entries.items():
+                        if k in names:
+                            out.setdefault(k, []).append(v)
+                        elif a.kwarg:
+                            out.setdefault(a.kwarg.arg, []).append(v)
             elif kw.arg in names:
                 out.setdefault(kw.arg, []).append(kw.value)
             elif a.kwarg:
@@ -485,16 +545,42 @@ class Prov:
                     return []
             elif how[0] == 'param':
                 for cq, call in self.call_sites_of(qual, direct_only=True):
-                    for arg in self.bind_call(qual, call).get(node.id, []):
+                    for arg in self.bind_call(qual, call, cq).get(node.id, []):
                         out += self.function_values(arg, cq, _depth + 1)
             else:
                 return []
         return sorted(set(out))
 
+    def class_of(self, node, qual, depth=0):
+        """Name of the repo class an expression evidently is an instance of (or, for a class name, the class itself), else None."""
+        if isinstance(node, ast.Call) and dotted(node.func) in self.facts.classes:
+            return dotted(node.func)
+        if isinstance(node, ast.Name):
+            if node.id in self.facts.classes:
+                return node.id
+            fn = self.cg.funcs.get(qual)
+            if fn is not None and '.' in qual and qual.split('.')[0] in self.facts.classes and fn.args.args and fn.args.args[0].arg == node.id \
+                    and not any(getattr(d, 'id', None) == 'staticmethod' for d in fn.decorator_list):
+                return qual.split('.')[0]
+            if depth < 3:
+                defs = self.reaching(qual, node)
+                classes = {self.class_of(v, qual, depth + 1) if h[0] == 'expr' else None for h, v in defs}
+                if len(classes) == 1:
+                    return next(iter(classes))
+        return None
+
     def callees(self, qual, call):
         """Repo functions a call may reach: the call graph's resolution, plus calls through a local alias of a function or
         through a function-valued parameter."""
         out = list(self.cg.callees(qual, call)) if qual is not None else []
+        f = call.func
+        if qual is not None and isinstance(f, ast.Attribute):
+            # x.m(...) where the class of x is evident: self / cls in a method, a class name, a fresh Cls(...), a local bound to one
+            target = self.class_of(f.value, qual)
+            if target:
+                owner, m = self.facts.method(target, f.attr)
+                if m is not None and '{}.{}'.format(owner, f.attr) in self.cg.funcs:
+                    return ['{}.{}'.format(owner, f.attr)]
         if not out and qual is not None and isinstance(call.func, ast.Name):
             key = (qual, id(call))
             memo = self.__dict__.setdefault('_callee_memo', {})
@@ -514,16 +600,64 @@ class Prov:
         if '_indirect' not in self.__dict__:
             self._indirect = {}
             for cq, cfn in self.cg.funcs.items():
-                for n in walk_no_nested(cfn):
-                    if isinstance(n, ast.Call) and isinstance(n.func, ast.Name) and not self.cg.callees(cq, n):
+                for n in walk_fn(cfn):
+                    if isinstance(n, ast.Call):
+                        known = self.cg.callees(cq, n)
                         for q in self.callees(cq, n):
-                            self._indirect.setdefault(q, []).append((cq, n))
+                            if q not in known:
+                                self._indirect.setdefault(q, []).append((cq, n))
         return out + self._indirect.get(qual, [])
 
+    def namedtuples(self):
+        """{factory name: [field names]} for module-level `X = namedtuple('X', 'a b c')` / NamedTuple('X', [('a', T), ...])."""
+        if '_nt' not in self.__dict__:
+            out = {}
+            for name, node in self.facts.assign_nodes.items():
+                v = node.value
+                if isinstance(v, ast.Call) and dotted(v.func) in ('namedtuple', 'collections.namedtuple', 'NamedTuple', 'typing.NamedTuple') and len(v.args) >= 2:
+                    spec = v.args[1]
+                    fields = None
+                    if isinstance(spec, ast.Constant) and isinstance(spec.value, str):
+                        fields = spec.value.replace(',', ' ').split()
+                    elif isinstance(spec, (ast.List, ast.Tuple)):
+                        fields = []
+                        for e in spec.elts:
+                            if isinstance(e, ast.Constant) and isinstance(e.value, str):
+                                fields.append(e.value)
+                            elif isinstance(e, ast.Tuple) and e.elts and isinstance(e.elts[0], ast.Constant):
+                                fields.append(e.elts[0].value)
+                            else:
+                                fields = None
+                                break
+                    if fields:
+                        out[name] = fields
+            self._nt = out
+        return self._nt
+
+    def namedtuple_fields(self, call):
+        """{field index: value node} of a namedtuple construction, or None."""
+        d = dotted(call.func) if isinstance(call, ast.Call) else None
+        fields = self.namedtuples().get(d)
+        if fields is None or any(isinstance(a, ast.Starred) for a in call.args) or any(k.arg is None for k in call.keywords):
+            return None
+        out = {i: a for i, a in enumerate(call.args)}
+        for k in call.keywords:
+            if k.arg in fields:
+                out[fields.index(k.arg)] = k.value
+        return out if len(out) == len(fields) else None
+
     def attr_stores(self):
-        """{attribute name: [(qual, stored value node)]} over the whole program (`x.a = v`, `setattr(x, 'a', v)`)."""
+        """{attribute name: [(qual, stored value node)]} over the whole program (`x.a = v`, `setattr(x, 'a', v)`, fields of
+        namedtuple constructions)."""
         if '_stores' not in self.__dict__:
             st = {}
+            for q, fn in self.cg.funcs.items():
+                for n in walk_fn(fn):
+                    nf = self.namedtuple_fields(n) if isinstance(n, ast.Call) else None
+                    if nf:
+                        names = self.namedtuples()[dotted(n.func)]
+                        for i, v in nf.items():
+                            self.__dict__.setdefault('_nt_stores', {}).setdefault((dotted(n.func), names[i]), []).append((q, v))
             for q, fn in self.cg.funcs.items():
                 for n in walk_no_nested(fn):
                     if isinstance(n, ast.Assign):
@@ -552,7 +686,7 @@ class Prov:
             out = set()
             sites = self.call_sites_of(qual)
             for cq, call in sites:
-                bound = self.bind_call(qual, call)
+                bound = self.bind_call(qual, call, cq)
                 if name in bound:
                     for arg in bound[name]:
                         out |= self._kinds(arg, cq)
@@ -565,6 +699,12 @@ class Prov:
             # `Cls(*vars(obj).values())` re-binds every attribute to the same attribute of an existing object: nothing new
             out.discard('ObjAttrs')
             return frozenset(out)
+        if key[0] == 'ntattr':
+            self.attr_stores()
+            out = set()
+            for q, v in self.__dict__.get('_nt_stores', {}).get((key[1], key[2]), []):
+                out |= self._kinds(v, q)
+            return frozenset(out)
         if key[0] == 'attr':
             out = set()
             stores = self.attr_stores().get(key[1], [])
@@ -576,15 +716,28 @@ class Prov:
             fn = self.fn_of(qual)
             out = set()
             for n in walk_no_nested(fn):
+                if isinstance(n, (ast.Yield, ast.YieldFrom)) and n.value is not None and not self._in_lambda(n, fn):
+                    out |= self._kinds(n.value, qual)          # a generator "returns" what it yields
                 if isinstance(n, ast.Return) and n.value is not None:
                     v = n.value
+                    nf = self.namedtuple_fields(v) if idx is not None else None
                     if idx is not None and isinstance(v, (ast.Tuple, ast.List)) and idx[0] < len(v.elts) and len(v.elts) == idx[1] \
                             and not any(isinstance(e, ast.Starred) for e in v.elts):
                         out |= self._kinds(v.elts[idx[0]], qual)
+                    elif nf is not None and len(nf) == idx[1]:
+                        out |= self._kinds(nf[idx[0]], qual)
                     else:
                         out |= self._kinds(v, qual)
             return frozenset(out)
         raise AnalysisError('prov: unknown summary key {}'.format(key))
+
+    def _in_lambda(self, node, fn):
+        p = getattr(node, '_parent', None)
+        while p is not None and p is not fn:
+            if isinstance(p, ast.Lambda):
+                return True
+            p = getattr(p, '_parent', None)
+        return False
 
     def solve(self):
         for _ in range(200):
@@ -609,7 +762,7 @@ class Prov:
             self.solve()
             if len(self.tab) == n0:
                 break
-        return self._kinds(node, qual)
+        return frozenset(k for k in self._kinds(node, qual) if not k.startswith('NT:'))
 
     def kind(self, node, qual):
         return coarse(self.kinds(node, qual))
@@ -623,7 +776,7 @@ class Prov:
             self.solve()
             if len(self.tab) == n0:
                 break
-        return self.tab[('param', qual, name)]
+        return frozenset(k for k in self.tab[('param', qual, name)] if not k.startswith('NT:'))
 
     def _kinds(self, node, qual):
         key = (id(node), qual)
@@ -763,7 +916,15 @@ class Prov:
             base = self._kinds(node.value, qual)
             if 'CliArgs' in base:
                 return {'UserGiven'} | ({'Unknown'} if base - {'CliArgs', 'NoneK'} else set())
-            return set(self.summary(('attr', node.attr)))
+            # fields of a namedtuple are read only from values that may be that namedtuple (the tag travels with the value)
+            tags = [k[3:] for k in base if k.startswith('NT:')]
+            out = set()
+            for t in tags:
+                if node.attr in self.namedtuples().get(t, []):
+                    out |= self.summary(('ntattr', t, node.attr))
+            if not out or self.attr_stores().get(node.attr) or not tags:
+                out |= self.summary(('attr', node.attr))
+            return out
         if isinstance(node, ast.Call):
             return self._call(node, qual)
         if isinstance(node, ast.BoolOp):
@@ -852,6 +1013,11 @@ class Prov:
             return self._dirname_kinds(node.args[0], qual)
         if d == 'vars' and node.args:
             return {'ObjAttrs'}
+        if d in self.namedtuples():
+            out = {'NoneK', 'NT:' + d}
+            for a in list(node.args) + [k.value for k in node.keywords]:
+                out |= self._kinds(a, qual)
+            return out
         if d == 'getattr' and len(node.args) >= 2 and isinstance(node.args[1], ast.Constant) and isinstance(node.args[1].value, str):
             out = set(self.summary(('attr', node.args[1].value)))
             for a in node.args[2:]:
@@ -1060,6 +1226,10 @@ class Prov:
                         for n in walk_no_nested(self.fn_of(c)):
                             if isinstance(n, ast.Return) and n.value is not None:
                                 ok = self.is_abs(n.value, c, sources, busy) and ok
+                            elif isinstance(n, ast.Yield) and n.value is not None and not self._in_lambda(n, self.fn_of(c)):
+                                ok = self._elem(n.value, c, sources, busy) and ok
+                            elif isinstance(n, ast.YieldFrom) and not self._in_lambda(n, self.fn_of(c)):
+                                ok = self.is_abs(n.value, c, sources, busy) and ok
                     return ok
             return self._leaf(node, sources, False)
         if isinstance(node, ast.Name):
@@ -1080,7 +1250,7 @@ class Prov:
                     if not sites or qual in self.value_refs():
                         ok = self._leaf(node, sources, False)
                     for cq, call in sites:
-                        bound = self.bind_call(qual, call)
+                        bound = self.bind_call(qual, call, cq)
                         if node.id in bound:
                             for arg in bound[node.id]:
                                 ok = self.is_abs(arg, cq, sources, busy) and ok
